@@ -207,6 +207,21 @@ class Check:
         if self.pid == 'C12' and getattr(self, 'skeleton_rc', 0) != 0:
             bad.append('lock skeleton extractor failed on the current source: ' + getattr(self, 'skeleton_log', ''))
         pr['ok'] = (rc == 0 and not bad and closed > 0 and not axioms)
+        if not self.quick and rc == 0:
+            # thorough tier: independent re-check of the compiled property file and everything it depends on
+            t1 = time.time()
+            try:
+                crc, cout, cerr = sh('coqchk -silent -o -Q theories Arsenal -Q Props Arsenal.Props Arsenal.Props.%s' % self.pid, cwd=COQ, timeout=5400)
+            except subprocess.TimeoutExpired:
+                crc, cout, cerr = 124, '', 'coqchk timed out after 5400 s'
+            summ = ' '.join((cout + cerr).split())
+            pr['coqchk'] = 'rc=%d %.0fs %s' % (crc, time.time() - t1, summ[-700:])
+            if crc != 0:
+                bad.append('coqchk rejects Props/%s.vo: %s' % (self.pid, summ[-1500:]))
+                pr['ok'] = False
+            elif '* Axioms: <none>' not in (cout + cerr):
+                bad.append('coqchk reports axioms: %s' % summ[-1500:])
+                pr['ok'] = False
         if rc != 0:
             pr['bad'].append('Props/%s.v does not compile: %s' % (self.pid, (out + err)[-1500:]))
 
@@ -747,6 +762,7 @@ class Check:
             trusted_base=[
                 'Coq 8.16.1 kernel (coqc); vm_compute used for the in-Coq correspondence sample and finite sweeps; native_compute not used',
                 'Print Assumptions of Props/%s.v on this run: %s' % (self.pid, (pr.get('assumptions') or 'n/a').replace('\n', ' | ')[:600]),
+                'coqchk (thorough tier only): %s' % pr.get('coqchk', 'not run in this tier'),
                 'extraction: ExtrOcamlBasic only (bool, option, unit, list, prod, sumbool + inlined andb/orb/negb), Z/N/positive kept as extracted inductives, no Extract Constant of our own; OCaml 4.13.1; hand-written ocaml/driver.ml (parsing, int<->Z, printing, allocation-number table)',
                 'correspondence check: Go harness harness/cmd/muh (generators, projection of observables, oracles) + line diff in bin/checklib.py; covers only the histories it runs',
                 'model files in the cone of Props/%s.v: %s' % (self.pid, ', '.join(pr.get('cone', []))),
